@@ -93,6 +93,9 @@ def op_bit(c, o):
             BitArray.pack(arr, wider[0])
         if not np.array_equal(arr, keep):
             return ["not-repeatable", "pack() modified the caller's array"]
+    if o.get("pickled"):                           # the packed array after a pickle round trip
+        import pickle
+        p = pickle.loads(pickle.dumps(p))
     if o.get("pre_w") and op in ("bit_window", "bit_roundtrip", "bit_getlist") and len(a) >= int(o["pre_w"]):
         p.sliding_window(int(o["pre_w"]))          # an earlier window query (of another size) on the same object
     if op == "bit_roundtrip":
